@@ -97,6 +97,19 @@ UpdParams(signers, fees) ==
 RecBatch(signers, bs) ==
   {[type |-> "RecordBatch", signer |-> a, b |-> b, bad |-> "none"] : a \in signers, b \in bs}
 ExpImp == {[type |-> "ExportImport"]}
+Qry(q, b, idx, denom, w, offset, limit, reverse) == [type |-> "Query", q |-> q, b |-> b, idx |-> idx, denom |-> denom, w |-> w, offset |-> offset, limit |-> limit, reverse |-> reverse]
+(* every gRPC query once (paginated ones with two page shapes); offered where genesis round trips are offered, so that the *)
+(* walker also asks them on the re-imported chain                                                                           *)
+Queries(bs, w) ==
+  UNION {{Qry("NextL1Sequence", b, 0, "d1", w, 0, 0, FALSE), Qry("LastFinalizedOutput", b, 0, "d1", w, 0, 0, FALSE), Qry("OutputProposals", b, 0, "d1", w, 1, 1, TRUE),
+          Qry("BatchInfos", b, 0, "d1", w, 0, 0, FALSE), Qry("TokenPairs", b, 0, "d1", w, 0, 0, FALSE), Qry("Claimed", b, 0, "d1", w, 0, 0, FALSE)}
+         \cup (IF Thorough
+               THEN {Qry("Bridge", b, 0, "d1", w, 0, 0, FALSE), Qry("OutputProposal", b, 1, "d1", w, 0, 0, FALSE), Qry("OutputProposals", b, 0, "d1", w, 0, 0, FALSE),
+                     Qry("TokenPairByL1Denom", b, 0, "d1", w, 0, 0, FALSE), Qry("TokenPairByL2Denom", b, 0, "d1", w, 0, 0, FALSE), Qry("TokenPairByL2Denom", b, 0, "d2", w, 0, 0, FALSE),
+                     Qry("TokenPairs", b, 0, "d1", w, 1, 1, FALSE)}
+               ELSE {}) : b \in bs}
+  \cup {Qry("Bridges", 1, 0, "d1", w, 1, 1, TRUE), Qry("Params", 1, 0, "d1", w, 0, 0, FALSE)}
+  \cup (IF Thorough THEN {Qry("Bridges", 1, 0, "d1", w, 0, 0, FALSE)} ELSE {})
 
 OracleEvents(s) ==
   LET periods == IF Thorough THEN {-4, -1, 0, 1, 2, 3} ELSE {-1, 0, 2}
@@ -125,6 +138,7 @@ LedgerEvents(s) ==
   \cup (IF s.bal["u1"]["d1"] >= 7 THEN Sends({"u1"}, {"esc1", "esc2"}, {"d1"}, {1}) ELSE {})
   \cup (IF s.nextB <= s.maxB /\ (Thorough \/ s.fee = 0) THEN UpdParams({"gov"}, {0, 1} \ {s.fee}) ELSE {})
   \cup (IF Thorough \/ s.now = 3 THEN ExpImp ELSE {})
+  \cup (IF s.now = 3 /\ s.nextB > 1 THEN Queries(IF Thorough THEN {1, 2} ELSE {1}, W1) ELSE {})
 
 WVariants == {W1, [W1 EXCEPT !.from = "up:u2"], [W1 EXCEPT !.amt = 2], [W1 EXCEPT !.to = "u2"], [W1 EXCEPT !.from = "u1", !.to = "u2"], [W1 EXCEPT !.seq = 2], [W1 EXCEPT !.denom = "d2"]}
 BadPos == {c \in {Claim("x", b, o, w, 0, t, pos, "h1", "none") : b \in {1, 2}, o \in 1..3, w \in {W1, W2, W3}, t \in {"T1", "T2", "T3"}, pos \in 1..3} : c.pos > Len(c.tree.leaves)}
